@@ -21,7 +21,9 @@ RULE = ('Base case = generated program (free grammar, incl. terminal phases, tim
         'instance under the requested name in every phase, every constructed instance torn down exactly once after the last '
         'phase/diagnoser event and before the first output callback, constructor failure => ERROR and no later phase body, '
         'only test_start plugs exist while test_start runs) and a differential: a tearDown fault does not change outcome or '
-        'records w.r.t. the fault-free run.  Non-trivial = >=2 plug classes and >=1 injected fault; distinct by canonical case.')
+        'records w.r.t. the fault-free run.  Virtual-time parts: every subset of 1-3 plugs whose tearDown blocks uninterruptibly; and a '
+        'tearDown that returns while it is being abandoned, with the executor stalled for 2 ms at every line of tear_down_plugs / '
+        'kill / async_raise.  Non-trivial = >=2 plug classes and >=1 injected fault; distinct by canonical case.')
 ASSUMPTIONS = [
     'initialize_plugs iterates a set: faults are attached to a class, no oracle depends on construction order.',
     'A hanging tearDown is bounded with plug_teardown_timeout_s=0.05 (a bound on a hang, not a correctness signal).',
